@@ -20,6 +20,8 @@ def worker(case):
     from spydrnet.uniquify import uniquify
     from spydrnet.flatten import flatten
 
+    if variant == "other-policy-in-force":
+        core.sdn().namespace_manager.default = "EDIF"   # built under DEFAULT, transformed while EDIF is the default
     if variant in ("edif-identifiers", "edif-identifiers-taken"):
         # what the EDIF reader hands over: the EDIF policy in force, every element carrying an identifier
         for l in n.libraries:
@@ -90,6 +92,7 @@ def cases(tier):
         if desc[0] in ("K1-chain2", "K8-bus", "K5-chain3") and (tier == "thorough" or sum(desc[1]) % 4 == 0):
             out.append((desc, "asc", "edif-identifiers"))
             out.append((desc, "asc", "edif-identifiers-taken"))
+            out.append((desc, "asc", "other-policy-in-force"))
     return out
 
 
